@@ -377,6 +377,33 @@ class Tr:
             return RAT
         raise TranslationError(f"branches of different types {ta!r} / {tb!r}")
 
+    def fresh(self, name):
+        """a Lean identifier that shadows nothing (refined, non-Optional view of an Optional variable)"""
+        self._fresh = getattr(self, "_fresh", 0) + 1
+        return f"{mangle(name)}_r{self._fresh}"
+
+    def notnone_conj(self, test, env):
+        """test = conjunction of `X is not None` atoms and/or `None not in (X, Y, …)`  ->  list of dotted names, else None"""
+        atoms = test.values if isinstance(test, ast.BoolOp) and isinstance(test.op, ast.And) else [test]
+        names = []
+        for a in atoms:
+            if isinstance(a, ast.Compare) and len(a.ops) == 1 and isinstance(a.ops[0], ast.IsNot) \
+                    and isinstance(a.comparators[0], ast.Constant) and a.comparators[0].value is None:
+                d = self.dotted(a.left)
+                if d is None or d not in env:
+                    return None
+                names.append(d)
+            elif isinstance(a, ast.Compare) and len(a.ops) == 1 and isinstance(a.ops[0], ast.NotIn) \
+                    and isinstance(a.left, ast.Constant) and a.left.value is None and isinstance(a.comparators[0], ast.Tuple):
+                for el in a.comparators[0].elts:
+                    d = self.dotted(el)
+                    if d is None or d not in env:
+                        return None
+                    names.append(d)
+            else:
+                return None
+        return names
+
     def none_test(self, test, env):
         """`X is None` / `X is not None` on an Optional variable -> (name, positive?)"""
         if isinstance(test, ast.Compare) and len(test.ops) == 1 and isinstance(test.comparators[0], ast.Constant) \
@@ -399,11 +426,35 @@ class Tr:
         if isinstance(node.func, ast.Attribute) and node.func.attr == "astype":
             args = []
         else:
-            args = [self.expr(a, env) for a in node.args]
+            args = []
+            for a in node.args:
+                try:
+                    args.append(self.expr(a, env))
+                except TranslationError:
+                    args.append(("«untranslatable argument»", "untranslatable"))   # only an error if it is used
         if fname in ("np.asanyarray", "np.asarray", "list", "tuple") and len(args) == 1 and not node.keywords:
             return args[0]          # elementwise reading / tuple-as-list
+        if fname == "np.array" and len(args) == 1 and [k.arg for k in node.keywords] in ([], ["dtype"]):
+            return args[0]          # np.array(x, dtype=float) of numbers: the numbers
+        if fname in self.spec.get("identity_calls", []) and args:
+            return args[0]          # e.g. `_convert_units(radius, …)`: the value itself when the units are the CRS's own
+        if fname == "np.allclose" and len(args) == 2 and [k.arg for k in node.keywords] in ([], ["equal_nan"]):
+            (a, ta), (b, tb) = args
+            n = len(tb[1]) if isinstance(tb, tuple) and tb[0] == "tuple" else 0
+            if n not in (2, 4):
+                raise TranslationError("np.allclose on something that is not a pair / 4-tuple of numbers")
+            want = tup(*([RAT] * n))
+            return f"(npAllclose{n} {self.coerce(a, ta, want)} {self.coerce(b, tb, want)})", BOOL
         inl = self.spec.get("inline", {}).get(fname)
-        if isinstance(inl, dict) and not node.keywords:
+        if isinstance(inl, dict) and "variants" in inl:
+            # pick by the type of the chosen positional argument (e.g. pair vs 4-tuple)
+            ta = args[inl["by_arg"]][1]
+            key = len(ta[1]) if isinstance(ta, tuple) and ta[0] == "tuple" else None
+            if key not in inl["variants"]:
+                raise TranslationError(f"no variant of {fname} for argument type {ta!r}")
+            inl = dict(inl["variants"][key], partial=inl.get("partial"), ignore_keywords=inl.get("ignore_keywords"))
+            args = args[:len(inl["args"])]
+        if isinstance(inl, dict) and (not node.keywords or inl.get("ignore_keywords")):
             actual = []
             for pn in inl.get("implicit", []):
                 if pn not in env:
@@ -621,6 +672,15 @@ class Tr:
                 return cont(env)
             if isinstance(tgt, ast.Subscript):
                 return self.subscript_store(s, tgt, env, cont)
+            if isinstance(s.value, ast.Call):
+                inl = self.spec.get("inline", {}).get(self.dotted(s.value.func))
+                if isinstance(inl, dict) and inl.get("partial"):
+                    if not self.raises:
+                        raise TranslationError("call of a raising helper in a function declared not to raise")
+                    e, t = self.expr(s.value, env)           # t = the type of the value on success
+                    env2 = dict(env)
+                    env2[name] = (mangle(name), t)
+                    return f"(match {e} with\n| none => none\n| some {mangle(name)} =>\n{indent(cont(env2))})"
             rhs = self.dotted(s.value) if isinstance(s.value, (ast.Name, ast.Attribute)) else None
             if rhs is not None and rhs not in env and any(k.startswith(rhs + ".") for k in env) and isinstance(tgt, ast.Name):
                 # `adef = self.target_area`: a second name for an object whose attributes are parameters
@@ -639,6 +699,20 @@ class Tr:
         if isinstance(s, ast.AugAssign):
             return self.block([ast.Assign(targets=[s.target], value=ast.BinOp(left=s.target, op=s.op, right=s.value))] + rest,
                               env, k)
+        if isinstance(s, ast.If) and self.notnone_conj(s.test, env) is not None and \
+                (isinstance(s.test, ast.BoolOp) or isinstance(s.test.ops[0], ast.NotIn)):
+            names = self.notnone_conj(s.test, env)
+            opt_names = [n for n in names if isinstance(env[n][1], tuple) and env[n][1][0] == "opt"]
+            else_code = self.block(list(s.orelse) + rest, env, k)
+            env_then = dict(env)
+            fresh = {}
+            for n in opt_names:
+                fresh[n] = self.fresh(n)
+                env_then[n] = (fresh[n], env[n][1][1])
+            code = self.block(list(s.body) + rest, env_then, k)
+            for n in reversed(opt_names):
+                code = f"(match {env[n][0]} with\n| some {fresh[n]} =>\n{indent(code)}\n| none =>\n{indent(else_code)})"
+            return code
         if isinstance(s, ast.If):
             refined = self.none_test(s.test, env)
             bare = self.dotted(s.test)
@@ -646,21 +720,23 @@ class Tr:
                 name, positive = refined
                 e0, t0 = env[name]
                 env_some = dict(env)
-                env_some[name] = (mangle(name), t0[1])
+                fr = self.fresh(name)
+                env_some[name] = (fr, t0[1])
                 some_b, none_b = (s.body, s.orelse) if positive else (s.orelse, s.body)
                 a = self.block(list(some_b) + rest, env_some, k)
                 b = self.block(list(none_b) + rest, env, k)
-                return f"(match {e0} with\n| some {mangle(name)} =>\n{indent(a)}\n| none =>\n{indent(b)})"
+                return f"(match {e0} with\n| some {fr} =>\n{indent(a)}\n| none =>\n{indent(b)})"
             if bare is not None and bare in env and isinstance(env[bare][1], tuple) and env[bare][1][0] == "opt" \
                     and is_num(env[bare][1][1]):
                 # `if chunk:` on an Optional number: truthy iff not None and non-zero; inside, it is a number
                 e0, t0 = env[bare]
                 env_some = dict(env)
-                env_some[bare] = (mangle(bare), t0[1])
+                fr = self.fresh(bare)
+                env_some[bare] = (fr, t0[1])
                 a = self.block(list(s.body) + rest, env_some, k)
                 b_some = self.block(list(s.orelse) + rest, env_some, k)
                 b = self.block(list(s.orelse) + rest, env, k)
-                return (f"(match {e0} with\n| some {mangle(bare)} =>\n  if {mangle(bare)} ≠ 0 then\n{indent(a, 4)}\n  else\n"
+                return (f"(match {e0} with\n| some {fr} =>\n  if {fr} ≠ 0 then\n{indent(a, 4)}\n  else\n"
                         f"{indent(b_some, 4)}\n| none =>\n{indent(b)})")
             if ast.unparse(s.test) in self.assume:
                 c = "true" if self.assume[ast.unparse(s.test)] else "false"
@@ -1058,9 +1134,25 @@ SPECS = [
                            upto="from pyresample.utils.cartopy import Projection"),
          post_guard=["crs = Projection(self.crs, bounds=bounds)", "return crs"], owners=["C20"]),
     # ---- C13 -----------------------------------------------------------------------------------
+    dict(name="validate_variable2", file="pyresample/area_config.py", func="_validate_variable", raises=True,
+         params=[("var", opt(tup(RAT, RAT))), ("new_var", tup(RAT, RAT))], returns=tup(RAT, RAT), select=_whole, owners=["C13"]),
+    dict(name="validate_variable4", file="pyresample/area_config.py", func="_validate_variable", raises=True,
+         params=[("var", opt(tup(RAT, RAT, RAT, RAT))), ("new_var", tup(RAT, RAT, RAT, RAT))], returns=tup(RAT, RAT, RAT, RAT),
+         select=_whole, owners=["C13"]),
     dict(name="round_shape", file="pyresample/area_config.py", func="_round_shape",
          params=[("shape", tup(RAT, RAT))], returns=tup(INT, INT), assume={"shape is None": False, "incorrect_shape": False},
          select=_whole, skip_targets=["incorrect_shape"], owners=["C13"]),
+    dict(name="extrapolate_information", file="pyresample/area_config.py", func="_extrapolate_information", raises=True,
+         params=[("area_extent", opt(tup(RAT, RAT, RAT, RAT))), ("shape", opt(tup(RAT, RAT))), ("center", opt(tup(RAT, RAT))),
+                 ("radius", opt(tup(RAT, RAT))), ("resolution", opt(tup(RAT, RAT))), ("upper_left_extent", opt(tup(RAT, RAT)))],
+         returns=tup(opt(tup(RAT, RAT, RAT, RAT)), opt(tup(RAT, RAT)), opt(tup(RAT, RAT))), select=_whole,
+         identity_calls=["_convert_units"],
+         inline={"_validate_variable": dict(partial=True, by_arg=1, variants={
+                     2: dict(lean="validate_variable2", args=[opt(tup(RAT, RAT)), tup(RAT, RAT)], returns=tup(RAT, RAT)),
+                     4: dict(lean="validate_variable4", args=[opt(tup(RAT, RAT, RAT, RAT)), tup(RAT, RAT, RAT, RAT)],
+                             returns=tup(RAT, RAT, RAT, RAT))}),
+                 "_round_shape": dict(lean="round_shape", args=[tup(RAT, RAT)], returns=tup(INT, INT), ignore_keywords=True)},
+         owners=["C13"]),
 ]
 
 
